@@ -379,6 +379,8 @@ def write_replay(prop: str, payload: dict) -> Path:
 
 
 def write_evidence(prop: str, ev: dict):
-    d = VERIF / "evidence"
-    d.mkdir(exist_ok=True)
+    # bin/seed points this elsewhere so that runs against a deliberately broken
+    # tree never overwrite the evidence of the real one
+    d = Path(os.environ.get("VERIF_EVIDENCE_DIR") or (VERIF / "evidence"))
+    d.mkdir(parents=True, exist_ok=True)
     (d / f"{prop}.json").write_text(json.dumps(ev, indent=1, default=str))
